@@ -136,10 +136,10 @@ func init() {
 			}
 			return genSingle(seed, "C01", k)
 		},
-		Check: c01Check,
-		Rule: "seeded scenario: random routing tree (depth<=2, continue flags, group_by lists/.../empty, timers), 1-2 webhook integrations per receiver, optional inhibit rules, silences (create/edit/expire), mute/active time intervals, 2-8 label sets with fire/heartbeat/resolve/time-out/flap/re-fire timelines, receiver fault windows (5xx/4xx/hang/reset/slow), valid and rejected reloads, scheduling holds at the dispatcher yield points, varying worker counts and maintenance/GC intervals. Non-trivial: at least one O1 obligation was evaluated in a clean window; distinct: by abstract trace (sequence of API calls, notification outcomes and fault events).",
-		Real: []string{"app.New wiring + reloader", "api/v2 handlers", "provider/mem", "dispatch", "inhibit", "silence", "nflog", "notify pipeline (all stages)", "timeinterval", "webhook notifier + net/http client", "config loader"},
-		Stub: []string{"clock (synctest)", "receiver endpoints (net.Pipe + scripted http.Server)", "snapshot disk (simfs)", "goroutine holds at verifhook yield sites"},
+		Check:       c01Check,
+		Rule:        "seeded scenario: random routing tree (depth<=2, continue flags, group_by lists/.../empty, timers), 1-2 webhook integrations per receiver, optional inhibit rules, silences (create/edit/expire), mute/active time intervals, 2-8 label sets with fire/heartbeat/resolve/time-out/flap/re-fire timelines, receiver fault windows (5xx/4xx/hang/reset/slow), valid and rejected reloads, scheduling holds at the dispatcher yield points, varying worker counts and maintenance/GC intervals. Non-trivial: at least one O1 obligation was evaluated in a clean window; distinct: by abstract trace (sequence of API calls, notification outcomes and fault events).",
+		Real:        []string{"app.New wiring + reloader", "api/v2 handlers", "provider/mem", "dispatch", "inhibit", "silence", "nflog", "notify pipeline (all stages)", "timeinterval", "webhook notifier + net/http client", "config loader"},
+		Stub:        []string{"clock (synctest)", "receiver endpoints (net.Pipe + scripted http.Server)", "snapshot disk (simfs)", "goroutine holds at verifhook yield sites"},
 		Assumptions: []string{"obligations are asserted only in clean windows (alert eligible, integration healthy, no reload/restart) of length max(group_wait,group_interval)+flush timeout+6s", "eligibility is computed by the reference models (ingestion contract restricted to unambiguous submissions, silences, inhibition rule, calendar)"},
 	})
 }
